@@ -6,7 +6,7 @@ called in-process there, with
     methods, PostprocessManager.run and ClientGenerator._show_diffs (no source hooks),
   * a sys.addaudithook recorder (open-for-write, os.mkdir, os.remove, os.rename, os.rmdir, shutil.rmtree),
   * recursive (path, kind, size, sha256) snapshots of the sandbox project root before and after.
-VERIF_IMPL_SRC (default /repo/src) selects the source tree (mutation tests use a private copy).
+The source tree is framework.REPO/src (VERIF_REPO_ROOT, default /repo); seeded changes are tested on a scratch checkout.
 Every path that is ever written or deleted lies under build/pipeline/<sandbox>/ or the system temp dir.
 """
 from __future__ import annotations
@@ -23,7 +23,9 @@ from pathlib import Path
 
 HERE = Path(__file__).resolve().parent
 sys.path.insert(0, str(HERE))
-IMPL_SRC = os.environ.get("VERIF_IMPL_SRC", "/repo/src")
+from framework import REPO  # noqa: E402  (follows VERIF_REPO_ROOT; default /repo)
+
+IMPL_SRC = os.environ.get("VERIF_IMPL_SRC") or str(REPO / "src")
 
 STAGES = ["Load", "Parse", "Exceptions", "Core", "Core2", "Models", "Endpoints", "Endpoints2", "Client", "Mocks",
           "Post", "Diff"]
@@ -132,6 +134,7 @@ def _install(fail_at: str | None):
                 st = "Diff"
             _REC["stage"] = st
             if fail_at == st and not (name == "Diff" and counts[name] > 1):
+                _REC["stage"] = "Final"  # whatever happens from here on is unwinding / cleanup
                 raise Injected(f"injected failure at {st}")
             try:
                 return orig(*a, **k)
@@ -232,6 +235,27 @@ def prepare_existing(root: Path, case: dict, spec_path: Path, other_spec: Path) 
         cur = cur.parent
 
 
+_REF: dict[tuple, dict[str, str]] = {}
+
+
+def reference_tree(out: str, core: str | None, spec: int) -> dict[str, str]:
+    """sha256 per relative path of what the direct path leaves for this configuration (fresh root, force,
+    no post-processing) — used only to give the existing files their abstract content token"""
+    key = (out, core, spec)
+    if key not in _REF:
+        import pipeline
+        box = Path(tempfile.mkdtemp(prefix="c10ref_", dir=pipeline.SCRATCH)).resolve()
+        try:
+            sp = box / "spec.json"
+            sp.write_text(json.dumps(make_spec(spec)))
+            (box / "proj").mkdir()
+            r = _gen(sp, box / "proj", out, core, True, False)
+            _REF[key] = {k: v[2] for k, v in snapshot(box / "proj").items() if v[0] == "f"} if r == "ok" else {}
+        finally:
+            shutil.rmtree(box, ignore_errors=True)
+    return _REF[key]
+
+
 def run_case(case: dict) -> dict:
     import pipeline
     pipeline.SCRATCH.mkdir(parents=True, exist_ok=True)
@@ -247,7 +271,11 @@ def run_case(case: dict) -> dict:
         (box / "cwd").mkdir()
         os.chdir(root if case.get("cwd_root") else box / "cwd")
         before = snapshot(root)
-        tmp_before = set(os.listdir(tempfile.gettempdir()))
+        ref = reference_tree(case["out"], case["core"], case["spec"])
+        toks = {}
+        for rel, (kd, size, sha) in before.items():
+            if kd == "f":
+                toks[rel] = 0 if ref.get(rel) == sha else (2 if size == 0 else 1)
         undo = _install(case["fail_at"])
         _REC["events"] = []
         _REC["stage"] = "Pre"
@@ -259,8 +287,6 @@ def run_case(case: dict) -> dict:
             undo()
             os.chdir(cwd0)
         after = snapshot(root)
-        leaked = sorted(set(os.listdir(tempfile.gettempdir())) - tmp_before - {"pyopenapi_gen_file_write_debug.log"})
-        leaked = [x for x in leaked if x.startswith("tmp")]
         # canonicalise events: paths under root -> "R/<rel>", under the TemporaryDirectory -> "T/<rel>"
         rs = str(root)
         tmpdir = os.path.realpath(tempfile.gettempdir())
@@ -294,8 +320,8 @@ def run_case(case: dict) -> dict:
         deleted = sorted(k for k in before if k not in after)
         modified = sorted(k for k in after if k in before and after[k] != before[k])
         return {"input": case, "obs": {"outcome": outcome, "events": evs, "created": created, "deleted": deleted,
-                                       "modified": modified, "before": sorted(before), "tmp_leaked": leaked,
-                                       "before_kinds": {k: v[0] for k, v in before.items()}}}
+                                       "modified": modified,
+                                       "before": [[k, v[0], toks.get(k, 0)] for k, v in sorted(before.items())]}}
     finally:
         os.chdir(cwd0)
         shutil.rmtree(box, ignore_errors=True)
@@ -311,8 +337,7 @@ def worker() -> None:
         except BaseException as e:  # noqa: BLE001
             import traceback
             out.append({"input": c, "obs": {"outcome": "harness-error: " + repr(e), "trace": traceback.format_exc()[-1500:],
-                                            "events": [], "created": [], "deleted": [], "modified": [], "before": [],
-                                            "tmp_leaked": [], "before_kinds": {}}})
+                                            "events": [], "created": [], "deleted": [], "modified": [], "before": []}})
     sys.stdout.write("\n@@C10 " + json.dumps(out) + "\n")
 
 
@@ -343,6 +368,218 @@ def run_parallel(cases: list[dict], nproc: int = 12) -> list[dict]:
     return out
 
 
+# ---------------------------------------------------------------- the property's own oracle
+def _pkg_dir(pkg: str) -> str | None:
+    """relative directory of a dotted package, or None when the text names no package (empty component)"""
+    comps = pkg.split(".")
+    if not pkg or any(c == "" for c in comps):
+        return None
+    return "/".join(comps)
+
+
+def allowed_rel(case: dict, rel: str) -> bool:
+    """property text: inside the output package directory, the core package directory, or an ancestor package
+    (the directory itself or its __init__.py)"""
+    out = _pkg_dir(case["out"])
+    core = _pkg_dir(case["core"] if case["core"] is not None else case["out"] + ".core")
+    for d in (out, core):
+        if d is None:
+            continue
+        if rel == d or rel.startswith(d + "/"):
+            return True
+        parts = d.split("/")
+        for k in range(1, len(parts)):
+            anc = "/".join(parts[:k])
+            if rel == anc or rel == anc + "/__init__.py":
+                return True
+    return False
+
+
+def oracle(case_obs: dict) -> list[str]:
+    case, o = case_obs["input"], case_obs["obs"]
+    fails: list[str] = []
+    if o["outcome"].startswith(("harness-error", "error:")):
+        return [f"generation ended with an unexpected exception: {o['outcome'][:80]}"]
+    before = {b[0] for b in o["before"]}
+    out_rel = "/".join(c for c in case["out"].split(".") if c)
+    existed = (out_rel == "" or out_rel in before)
+    under_root = [(st, k, p) for st, k, p in o["events"] if p == "R" or p.startswith("R/")]
+    if not case["force"] and existed:
+        if o["created"] or o["deleted"] or o["modified"]:
+            fails.append("non-force generation over an existing output package changed the tree under the project root")
+        elif under_root:
+            fails.append("non-force generation over an existing output package wrote or removed something under the "
+                         "project root (restored afterwards)")
+        # result: match -> success, difference or failure -> raises
+        injected = case["fail_at"] is not None and o["outcome"] == "fail:" + case["fail_at"]
+        if case["fail_at"] is None:
+            if case["existing"] in ("different", "coredifferent") and o["outcome"] != "diff":
+                fails.append("existing output differs from what would be generated but generation did not raise")
+            if case["existing"] == "equal" and case["core"] is None and not case["post"] and o["outcome"] != "ok":
+                fails.append("existing output matches what would be generated but generation raised")
+        elif not injected and o["outcome"].startswith("fail:"):
+            fails.append("failure reported for a stage that was not the injected one")
+    # containment, every mode
+    bad = sorted({p[2:] for _, _, p in under_root if p != "R" and not allowed_rel(case, p[2:])}
+                 | {p for p in o["created"] + o["deleted"] + o["modified"] if not allowed_rel(case, p)})
+    if any(p == "R" and k in ("remove", "rmtree") for _, k, p in under_root):
+        bad.append("<project root itself removed>")
+    if bad:
+        fails.append("a path outside the output package, the core package and their ancestors' __init__.py was "
+                     "written or removed under the project root")
+        o["not_contained"] = bad[:8]
+    return fails
+
+
+# ---------------------------------------------------------------- Coq printers
+def c_path(comps: list[str]) -> str:
+    from framework import clist, cstr
+    return clist(cstr(c) for c in comps)
+
+
+def _abs(p: str) -> list[str]:
+    """'R/a/b' -> ['R','a','b'] ; 'T' -> ['T']"""
+    return p.split("/")
+
+
+def c_case(case_obs: dict) -> str:
+    from framework import cbool, clist, copt, cpair, cstr
+    case, o = case_obs["input"], case_obs["obs"]
+    tags, models = spec_names(case["spec"])
+    cwd = ["R"] if case.get("cwd_root") else ["B", "cwd"]
+    core = copt(case["core"], lambda c: clist(cstr(x) for x in c.split(".")))
+    cfg = (f"{{| root := {c_path(['R'])}; tmp := {c_path(['T'])}; cwd := {c_path(cwd)}; "
+           f"out_pkg := {clist(cstr(x) for x in case['out'].split('.'))}; core_pkg := {core}; "
+           f"force := {cbool(case['force'])}; post := {cbool(case['post'])}; "
+           f"tags := {clist(cstr(t) for t in tags)}; models := {clist(cstr(m) for m in models)} |}}")
+    fail = copt(case["fail_at"], lambda x: x)
+    fs = [cpair(c_path(["R"]), "Dir")]
+    for rel, kd, tok in o["before"]:
+        fs.append(cpair(c_path(["R"] + rel.split("/")), "Dir" if kd == "d" else f"(File {tok})"))
+    oc = o["outcome"]
+    if oc == "ok":
+        n, st = "0", "None"
+    elif oc == "diff":
+        n, st = "1", "None"
+    elif oc.startswith("fail:"):
+        n, st = "2", f"(Some {oc[5:]})"
+    else:
+        n, st = "9", "None"
+    evs = []
+    for stg, kind, p in o["events"]:
+        if not (p == "R" or p == "T" or p.startswith(("R/", "T/"))):
+            continue  # outside the project root and the temporary directory (black cache, debug log)
+        if kind == "mkdir":
+            continue  # directory creation is compared through created/deleted
+        k = "W" if kind == "write" else "D"
+        stg_c = stg if stg in COQ_STAGES else "Other"
+        evs.append(f"({stg_c}, {k}, {c_path(_abs(p))})")
+    evs = sorted(set(evs))
+    canon = lambda ps: sorted({p for p in ps if "/.ruff_cache/" not in "/" + p + "/" or p.endswith(".ruff_cache")})  # noqa: E731
+    created = clist(c_path(["R"] + p.split("/")) for p in canon(o["created"]))
+    deleted = clist(c_path(["R"] + p.split("/")) for p in canon(o["deleted"]))
+    return f"(({cfg}, {fail}, {clist(fs)}), ({n}, {st}, {clist(evs)}, {created}, {deleted}))"
+
+
+COQ_STAGES = {"Load", "Parse", "Setup", "Exceptions", "Core", "Core2", "Models", "Endpoints", "Endpoints2", "Client",
+              "Mocks", "RichInit", "Post", "Diff", "Final"}
+
+# ---------------------------------------------------------------- case generators
+LAYOUTS = [  # (output package, core package) — embedded / sibling / nested / name-prefix / deep
+    ("client", None), ("a.client", None),
+    ("c1", "core"), ("c1", "shared.core"),
+    ("a.b.client", "a.core"), ("a.client", "a.client.rt"), ("a.client", "a.b.core"),
+    ("c1", "c1x.core"), ("pkg.api", "x.y.z.core"),
+]
+EXISTING = ["none", "empty", "equal", "different", "coredifferent", "partial", "otherspec"]
+FAILS = [None] + STAGES
+
+
+def mk(out, core, force, existing, fail_at, spec=0, post=False, cwd_root=False) -> dict:
+    return {"out": out, "core": core, "force": force, "post": post, "existing": existing, "fail_at": fail_at,
+            "spec": spec, "cwd_root": cwd_root}
+
+
+def gen_cases(rng, thorough: bool) -> list[dict]:
+    cases = []
+    if thorough:
+        for (out, core) in LAYOUTS:
+            for force in (False, True):
+                for ex in EXISTING:
+                    for fa in FAILS:
+                        cases.append(mk(out, core, force, ex, fa, spec=rng.randint(0, 1)))
+    else:
+        for force in (False, True):
+            for ex in EXISTING:
+                for fa in FAILS:
+                    out, core = rng.choice(LAYOUTS)
+                    cases.append(mk(out, core, force, ex, fa, spec=rng.randint(0, 1)))
+        for (out, core) in LAYOUTS:  # every layout without failure, both modes, equal/different
+            for force in (False, True):
+                for ex in ("none", "equal", "different"):
+                    cases.append(mk(out, core, force, ex, None))
+    # post-processing (real ruff): only existing trees whose diff decision does not depend on ruff's output
+    for _ in range(60 if thorough else 14):
+        out, core = rng.choice(LAYOUTS)
+        cases.append(mk(out, core, rng.random() < 0.5, rng.choice(["none", "different", "empty"]),
+                        rng.choice([None, None, "Post", "Mocks", "Diff"]), spec=rng.randint(0, 1), post=True,
+                        cwd_root=rng.random() < 0.4))
+    return cases
+
+
+# ---------------------------------------------------------------- entry
+def main(chk, replay: dict | None = None) -> int:
+    from framework import load_corpus
+    if replay is not None:
+        r = run_parallel([replay["input"]], 1)[0]
+        r["oracle_fail"] = oracle(r)
+        r["obs"].pop("before", None)
+        print(json.dumps(r, indent=1))
+        if r["oracle_fail"]:
+            print(f"VIOLATION property=C10 replay=(replayed) : {r['oracle_fail']}")
+            return 1
+        return 0
+    chk.prove()
+    inputs = [c["input"] for c in load_corpus("C10")] + gen_cases(chk.rng, chk.thorough)
+    cases = run_parallel(inputs)
+    for c in cases:
+        c["oracle_fail"] = oracle(c)
+    chk.cov["evaluations"] = len(cases)
+    chk.cov["distinct_nontrivial"] = len({json.dumps(c["input"], sort_keys=True) for c in cases
+                                          if c["input"]["existing"] != "none" or c["input"]["fail_at"]})
+    dist: dict = {"by_mode": {}, "by_existing": {}, "by_fail_at": {}, "by_outcome": {}, "layouts": {}, "post": 0,
+                  "cwd_is_root": 0, "audit_events": 0, "oracle_failures": 0, "impl_source": IMPL_SRC}
+    for c in cases:
+        i, o = c["input"], c["obs"]
+        for key, val in (("by_mode", "force" if i["force"] else "noforce"), ("by_existing", i["existing"]),
+                         ("by_fail_at", str(i["fail_at"])), ("by_outcome", o["outcome"].split(":")[0]),
+                         ("layouts", f"{i['out']}|{i['core']}")):
+            dist[key][val] = dist[key].get(val, 0) + 1
+        dist["post"] += int(i["post"])
+        dist["cwd_is_root"] += int(bool(i.get("cwd_root")))
+        dist["audit_events"] += len(o["events"])
+        dist["oracle_failures"] += int(bool(c["oracle_fail"]))
+    chk.cov["input_distribution"] = dist
+    for c in cases[:2] + cases[-2:]:
+        chk.sample({"input": c["input"], "outcome": c["obs"]["outcome"], "created": len(c["obs"]["created"]),
+                    "deleted": len(c["obs"]["deleted"]), "modified": len(c["obs"]["modified"]),
+                    "events": len(c["obs"]["events"])})
+    codes = None
+    if chk.model_ok:
+        codes = chk.coq_eval("From PG Require Import Lib.Strs Model.GenFS Corr.C10.",
+                             "(config * option stage * fs) * obs", [c_case(c) for c in cases], "run", shard=40)
+    for c in cases:  # keep replay files small
+        c["obs"] = {k: v for k, v in c["obs"].items() if k != "before"}
+    chk.decide(cases, codes, {1: "F10a", 2: "F10b"},
+               "Corr.C10.run: generate(model) = outcome, audit events per stage (write/remove/rmtree under the project "
+               "root and the temporary directory) and created/deleted paths of the sandbox project root")
+    return chk.finish(TRUSTED,
+                      rule="corpus + {force, no force} x existing tree {none, empty, equal, different, core different, partial, "
+                           "other spec} x failure injected at {none, 12 stages} over 9 package layouts (all combinations in "
+                           "thorough, one random layout per combination in quick) + real post-processing cases; "
+                           "non-trivial = an existing tree or an injected failure; distinct by JSON of the case")
+
+
 if __name__ == "__main__":
     if "--worker" in sys.argv:
         worker()
@@ -352,7 +589,7 @@ if __name__ == "__main__":
             print(json.dumps(r["input"]))
             o = r["obs"]
             print("  outcome:", o["outcome"], "created", len(o["created"]), "deleted", len(o["deleted"]), "modified",
-                  len(o["modified"]), "leak", o["tmp_leaked"])
+                  len(o["modified"]))
             if "trace" in o:
                 print(o["trace"])
             last = None
